@@ -5,7 +5,9 @@ package props
 import (
 	"fmt"
 	"math/rand"
+	"runtime"
 	"sort"
+	"time"
 
 	"github.com/RoaringBitmap/roaring/v2"
 	faiss "github.com/blevesearch/go-faiss"
@@ -13,6 +15,8 @@ import (
 
 	"verif/enum"
 	"verif/ref"
+	"verif/spec"
+	"verif/zx"
 )
 
 func prepareVec(c enum.AnyBatch) {
@@ -331,4 +335,52 @@ func vecMergeOracle(seg segment.Segment, exp *ref.Content) string {
 		}
 	}
 	return ""
+}
+
+func vecCancelInputs() []faultInput {
+	vm := enum.VecMenu()
+	return []faultInput{
+		{"vector merge of two segments", []spec.Batch{vm[0], vm[1]}, [][]int{nil, nil}},
+		{"vector merge with deletions", []spec.Batch{vm[1], vm[0], vm[2]}, [][]int{{0}, {1}, nil}},
+		{"vector merge, all vectors of one input deleted", []spec.Batch{vm[0], vm[3], vm[1]}, [][]int{{0, 1}, nil, nil}},
+	}
+}
+
+// hookEngine makes f run at every call into the engine stand-in.
+func hookEngine(f func()) func() {
+	faiss.Ctl.Reset()
+	faiss.Ctl.Hook = func(op string, n int) {
+		if op != "Close" {
+			f()
+		}
+	}
+	return func() { faiss.Ctl.Hook = nil }
+}
+
+// engineLive returns the number of live native objects once asynchronous closes
+// (the cache closes indexes in a goroutine of its own) have had time to finish:
+// it waits until the count is 0 or 5 s have passed. A non-zero count after that
+// is a leak, not a timing artefact.
+func engineLive() int {
+	deadline := time.Now().Add(5 * time.Second)
+	for {
+		n := faiss.Ctl.LiveCount()
+		if n == 0 || time.Now().After(deadline) {
+			return n
+		}
+		runtime.Gosched()
+		time.Sleep(50 * time.Microsecond)
+	}
+}
+
+func vecMergeOracleFile(path string, exp *ref.Content) string {
+	if len(exp.Vecs) == 0 {
+		return ""
+	}
+	o, err := zx.Plugin.Open(path)
+	if err != nil {
+		return err.Error()
+	}
+	defer o.Close()
+	return vecMergeOracle(o, exp)
 }
